@@ -7,10 +7,12 @@ import (
 	"fmt"
 	"io/ioutil"
 	"os"
+	"runtime"
 	"sync"
 	"testing"
 	"time"
 
+	"github.com/pilosa/pilosa/pql"
 	"github.com/pilosa/pilosa/roaring"
 )
 
@@ -244,7 +246,15 @@ func TestVerifWitness_DC5(t *testing.T) {
 		}
 		f.mu.Unlock()
 		row := <-done
-		if hit && row != nil && row.Includes(col) {
+		has := false
+		if row != nil {
+			for _, c := range row.Columns() {
+				if c == col {
+					has = true
+				}
+			}
+		}
+		if hit && has {
 			t.Fatalf("Row(v == 1) returned column %d, which held 0 and was set to 5 while the query ran (attempt %d): the query read bit 2 before and bits 1,0 after the write — a value never written", col, attempt)
 		}
 	}
